@@ -60,7 +60,7 @@ type FuncContract struct {
 var recvInvRe = regexp.MustCompile(`^invariant\s+\(\*?(\w+)\)\s+(\w+)\s*(\[[A-Z0-9,]*\])?\s+([A-Za-z0-9_\-.]+):\s*(.*)$`)
 var defineRe = regexp.MustCompile(`^define\s+(\w+)\(([^)]*)\):\s*(.*)$`)
 var clauseRe = regexp.MustCompile(`^(requires|ensures|lemma|assume|witness|flag)(\[[A-Z0-9,]*\])?\s+([A-Za-z0-9_\-.]+):\s*(.*)$`)
-var loopRe = regexp.MustCompile(`^loop\s+(\d+)\s+(invariant|unroll)(\[[A-Z0-9,]*\])?\s*(?:([A-Za-z0-9_\-.]+):\s*(.*))?$`)
+var loopRe = regexp.MustCompile(`^loop\s+(\d+)\s+(invariant|unroll|exit)(\[[A-Z0-9,]*\])?\s*(?:([A-Za-z0-9_\-.]+):\s*(.*))?$`)
 var paramRe = regexp.MustCompile(`^param\s+(\w+)\s+(ensures|requires)(\[[A-Z0-9,]*\])?\s+([A-Za-z0-9_\-.]+):\s*(.*)$`)
 
 func parseProps(s string) []string {
